@@ -574,11 +574,18 @@ def run(ctx):
                doc='ApplyResult._ack records acceptance and the owner before any user callback can fail, on every '
                    'accepting path (an unrecorded owner = a job nobody fails when its worker dies)'))
     feeder_serves_while_running(ctx, 'R01.7', parts='a')
+    # an outcome, a part list, a reorder buffer belong to one handle
+    from .generic import per_instance_state, ctor_forwards_params
+    per_instance_state(ctx, 'R01.9', ['pool'], floor=8, classes={'ApplyResult', 'IMapIterator'})
+    ctor_forwards_params(ctx, 'R01.10', ['pool'], floor=4)
     ctx.assume('messages on one pipe are delivered in order and not lost by the kernel')
 
 
 _P = 'billiard/pool.py'
 MUTANTS = [
+    ('map-handle-drops-the-error-callback', _P, "            self, cache, callback, error_callback=error_callback,\n", "            self, cache, callback,\n", 'R01.10'),
+    ('outcome-list-shared-by-all-map-handles', _P, "class MapResult(ApplyResult):\n\n    def __init__(self, cache, chunksize, length, callback, error_callback):\n        ApplyResult.__init__(\n            self, cache, callback, error_callback=error_callback,\n        )\n        self._success = True\n        self._length = length\n        self._value = [None] * length\n",
+     "class MapResult(ApplyResult):\n    _value = []\n\n    def __init__(self, cache, chunksize, length, callback, error_callback):\n        ApplyResult.__init__(\n            self, cache, callback, error_callback=error_callback,\n        )\n        self._success = True\n        self._length = length\n        self._value.extend([None] * length)\n", 'R01.9'),
     ('feeder-ends-after-one-bad-task', _P, "                            cache[job]._set(ind, (False, ExceptionInfo()))\n                        except KeyError:\n                            pass\n",
      "                            cache[job]._set(ind, (False, ExceptionInfo()))\n                        except KeyError:\n                            pass\n                        break\n", 'R01.7'),
     ('accept-callback-before-bookkeeping', _P, "            self._accepted = True\n            self._time_accepted = time_accepted\n            self._worker_pid = pid\n",
